@@ -7,15 +7,12 @@ BASE_NOTE = ("Trusted base: Lean 4.33.0 kernel, axioms propext/Classical.choice/
              "translator tools/extract and correspondence harness (differential testing; generator quality bounds it); "
              "Go runtime, std-lib and third-party libraries are modelled, not verified (DESIGN.md §3).")
 
-CLAIMED = {
- "C03": dict(
-   text="Lean theorems over the definitions regenerated from revocation.go/configparser.go on every run: reject iff an enabled mechanism "
-        "reports revoked/error, consulted-set, disabled/ocsp_only/crl_only isolation, default and unknown-string handling of parseMode; "
-        "exhaustive finite case split lifted by construction (the quantifier is a finite table). Tie: translator + correspondence of the real validator on the full table.",
-   design_ref="§5 C03",
-   technique="Lean 4 proof over regenerated mode tables and VerifyClientCertificate statement list + correspondence (real validator vs Lean driver)",
-   note=BASE_NOTE + " Mechanism outcomes (what each checker returns) are inputs of this theorem; they are the subject of C01/C02/C10."),
-}
+CLAIMED = {}
+for _f in sorted(os.listdir(os.path.join(VERIF, "tools", "claims"))):
+    if _f.endswith(".json"):
+        _c = json.load(open(os.path.join(VERIF, "tools", "claims", _f)))
+        _c["note"] = BASE_NOTE + " " + _c.get("note", "")
+        CLAIMED[_f[:-5]] = _c
 
 NOT_YET = "check not built yet in this round; planned (DESIGN.md §5)"
 
